@@ -134,7 +134,10 @@ fn check_tree(ev: &mut Ev, root: &Path, t: &Tree) -> CaseResult {
         seen.push(name.clone());
         let (base, version) = om::split_last_dash(&name);
         ev.evals(2);
-        if pkg.pkgbase() != base || pkg.pkgversion() != version {
+        if !name.contains('-') {
+            // listed, as it must be; how a name without '-' splits is not stated
+            ev.count("dirs/no_dash_listed");
+        } else if pkg.pkgbase() != base || pkg.pkgversion() != version {
             return Err(format!(
                 "{name:?}: pkgbase {:?} / pkgversion {:?}, the last '-' gives ({base:?}, {version:?})",
                 pkg.pkgbase(),
